@@ -217,7 +217,7 @@ func TestVerifBounded(t *testing.T) {
 	small := []*Config{cfg(1, 2, 1000, 0), cfg(1, 2, 1000, 1), cfg(1, 2, 1000, 2)}
 	families := []zzFamily{
 		// every short history over a spread of sizes
-		{"sizes", std, nil, append(mallocs(0, 1, 8, 16, 24, 25, 32, 48, 80, 81, 128, 1000, 70000), frees(3)...), depth},
+		{"sizes", std, nil, append(mallocs(0, 1, 8, 16, 24, 25, 32, 48, 80, 81, 128, 1000, 70000), frees(3)...), 4},
 		// histories that start from a populated heap: reuse, split, coalescing and the overflow of the size-class lists
 		{"after 200,200,136,200,200", small, []int32{200, 200, 136, 200, 200}, append(mallocs(24, 136, 200, 400), frees(5)...), depth},
 		{"after 6 x 24", small, []int32{24, 24, 24, 24, 24, 24}, append(mallocs(24, 48, 56, 136), frees(5)...), depth},
